@@ -25,6 +25,7 @@ import (
 	"time"
 
 	tea "github.com/charmbracelet/bubbletea"
+	"golang.org/x/sys/unix"
 )
 
 func init() { cmds["program"] = programMain }
@@ -36,6 +37,8 @@ type pRun struct {
 	p      *tea.Program
 	cancel context.CancelFunc
 
+	ptyM, ptyS   *os.File
+	termios0     interface{}
 	pipeR, pipeW *os.File
 	pipeClosed   bool
 	file         *os.File
@@ -125,6 +128,36 @@ func (r *pRun) setup() error {
 		}
 		r.file = f
 		opts = append(opts, tea.WithInput(f))
+	case "pty":
+		// a real terminal device for input and output: raw mode, window size, SIGWINCH
+		m, sl, err := openPty()
+		if err != nil {
+			return err
+		}
+		r.ptyM, r.ptyS = m, sl
+		w0, h0 := sc.Input.W, sc.Input.H
+		if w0 == 0 {
+			w0, h0 = 80, 24
+		}
+		if err := setWinsize(m, w0, h0); err != nil {
+			return err
+		}
+		if t, err := getTermios(sl); err == nil {
+			r.termios0 = t
+		}
+		opts = append(opts, tea.WithInput(sl), tea.WithOutput(sl))
+		go func() {
+			buf := make([]byte, 4096)
+			for {
+				n, err := m.Read(buf)
+				if n > 0 {
+					_, _ = h.out.Write(buf[:n])
+				}
+				if err != nil {
+					return
+				}
+			}
+		}()
 	case "tty":
 		// a new TTY is opened for input by Run itself; fails when the process has no controlling terminal
 		opts = append(opts, tea.WithInputTTY())
@@ -401,6 +434,17 @@ func (r *pRun) step(i int, st pStep) bool {
 		time.Sleep(time.Duration(st.Us) * time.Microsecond)
 	case "api":
 		r.startAPI(st.Kind, st.N, i)
+	case "winsize":
+		if r.ptyM == nil {
+			h.addErr("step %d: winsize without a pty", i)
+		} else {
+			if err := setWinsize(r.ptyM, st.W, st.H); err != nil {
+				h.addErr("step %d: TIOCSWINSZ: %v", i, err)
+			}
+			if err := syscall.Kill(os.Getpid(), syscall.SIGWINCH); err != nil {
+				h.addErr("step %d: kill: %v", i, err)
+			}
+		}
 	case "signal":
 		sig := syscall.SIGINT
 		if st.Sig == "term" {
@@ -526,7 +570,18 @@ func runProgramScenario(sc *pScenario) (res pResult) {
 		}
 	}
 
-	// snapshot
+	// snapshot (a pty is drained by a goroutine: let it catch up)
+	if r.ptyM != nil {
+		last, quiet := h.out.Len(), 0
+		for i := 0; i < 60 && quiet < 4; i++ {
+			time.Sleep(5 * time.Millisecond)
+			if n := h.out.Len(); n == last {
+				quiet++
+			} else {
+				last, quiet = n, 0
+			}
+		}
+	}
 	out := h.out.Snapshot()
 	h.mu.Lock()
 	res.RunStarted = h.runStarted
@@ -560,6 +615,13 @@ func runProgramScenario(sc *pScenario) (res pResult) {
 	res.Events = append([]pEvent{}, h.events...)
 	h.emu.Unlock()
 	res.Output = pToInts(out)
+	if r.ptyS != nil {
+		t1, err := getTermios(r.ptyS)
+		if t0, ok := r.termios0.(*unix.Termios); ok && err == nil {
+			eq := termiosEqual(t0, t1)
+			res.TermiosRestored = &eq
+		}
+	}
 	if !res.RunReturned || !apiOK {
 		buf := make([]byte, 1<<20)
 		n := runtime.Stack(buf, true)
@@ -581,6 +643,10 @@ func runProgramScenario(sc *pScenario) (res pResult) {
 	r.closeInput()
 	if r.pipeR != nil && res.RunReturned {
 		_ = r.pipeR.Close()
+	}
+	if r.ptyM != nil {
+		_ = r.ptyS.Close()
+		_ = r.ptyM.Close()
 	}
 	if r.file != nil {
 		_ = r.file.Close()
